@@ -774,6 +774,29 @@ class Engine(ExprMixin, CallMixin):
                 items = list(base.items)
                 items[idx] = val
                 new = VHList(items)
+            elif isinstance(base, VTuple) and isinstance(getattr(target, "ctx", None), ast.Load):
+                # WRITE-BACK through a tuple component (the access path of a mutating call / nested item store, e.g.
+                # `t[1].append(x)`, `xs[-1][1].append(x)`, `t[0][k] = v`: the path expression has Load context; a real item
+                # store `t[1] = v` has Store context and is not handled here - it raises TypeError in Python).  The tuple
+                # object is not changed by such a statement, the mutable value it holds is: with value semantics that is the
+                # tuple with this component replaced (exact as long as the component is not aliased, as for every list value
+                # of the engine).  Constant index, the component is a mutable container value and keeps its shape.
+                if not isinstance(idx, int) or isinstance(idx, bool):
+                    raise Unsupported("write-back through a symbolic tuple index")
+                if not (-len(base.items) <= idx < len(base.items)):
+                    self.may_raise(True, "IndexError", node)
+                    return
+                if not isinstance(base.items[idx], (VList, VDict, VSet, VHList)):
+                    raise Unsupported("write-back into a tuple component that is not a list / dict / set value")
+                try:
+                    same = shape_of(val) == shape_of(base.items[idx])
+                except Unsupported:
+                    same = False
+                if not same:
+                    raise Unsupported("write-back into a tuple component changes its shape")
+                items = list(base.items)
+                items[idx] = val
+                new = VTuple(items)
             elif isinstance(base, VEmptyDict):
                 raise Unsupported("store into an untyped empty dict (declare its shape in the contract's `locals`)")
             else:
